@@ -446,6 +446,35 @@ def rule_unq(S):
          loc=fs_.loc)
     outp = fs_.params[1]['id'] if len(fs_.params) > 1 else None
     wrote = {'ok': True, 'path': None}
+    # every OK answer comes from a catalogue lookup made by THIS call: the stored pointer is the out value of a
+    # get(get_storages(), <name>, out) on the same path, with that get not having reported a miss (a pointer remembered
+    # from an earlier call names an entry that delete_storage may have retired since)
+    fresh = {'ok': True, 'path': None, 'why': ''}
+    get_outs = {root_var(fs_, call_args(fs_, g)[2]) for g in gets if len(call_args(fs_, g)) >= 3}
+
+    def step3(ctx, n, st):
+        looked, stored = st
+        if is_call(n, cq='yakushima::get') and is_catalogue(fs_, call_args(fs_, n)[0]):
+            return (True, stored)
+        if n['k'] == 'BinaryOperator' and n.get('op') == '=':
+            lhs = fs_.ch(n)[0]
+            if root_var(fs_, lhs) == outp and fs_.strip(lhs)['k'] == 'UnaryOperator':
+                src = root_var(fs_, fs_.ch(n)[1])
+                return (looked, 'lookup' if (looked and src in get_outs) else 'other')
+        if n['k'] == 'ReturnStmt':
+            if R.ret_const(fs_, n) == OK and (not looked or stored == 'other') and fresh['ok']:
+                fresh['ok'] = False
+                fresh['path'] = ctx.witness()
+                fresh['why'] = 'without a catalogue lookup on this path' if not looked else \
+                    'with a pointer that is not the result of this call\'s lookup'
+            return None
+        return st
+
+    Explorer(fs_, step3).run((False, None))
+    S.ob('R-UNQ', fs_.qname, 'OK => the tree was looked up by this call', fresh['ok'],
+         'every OK return follows get(get_storages(), <name>, out) and hands out its result' if fresh['ok'] else
+         'find_storage can return OK %s: a remembered entry may have been deleted (and its memory retired) since' %
+         fresh['why'], loc=fs_.loc, path=fresh['path'])
 
     def step2(ctx, n, st):
         fs, w = st
